@@ -89,9 +89,12 @@ CLAIMED = {
               "ModInt256::split_vartime (p256 and ed25519 scalars in quick; four types in thorough): every path returns for all scalars and "
               "all stub results, fallback paths return the truncated generic reduction, and on the main path c1 = u1 and c0 is the low half "
               "of a candidate k*(u1 + b*2^128) that is within +/-2^128 or least in absolute value, the zero denominator excluded; a native "
-              "corpus replays the inputs of the three repaired defects. Kani part: Lagrange reductions on bounded operands, glue, helpers."),
+              "corpus replays the inputs of the three repaired defects. Kani part: Lagrange reductions on bounded operands, glue, helpers. "
+              "Constant-time splits: mul_divr_rounded of secp256k1, jq255e and GLS254 = floor((k*e + (r-1)/2)/r) for all k, e (staged cuts, LIA); "
+              "for jq255e and GLS254 split_mu the whole contract k = k0 + k1*mu, |k0|, |k1| < 2^127 (quotient stubs, constants' identities, "
+              "magnitude lemma, glue modulo 2^128); for secp256k1 split_theta the constants and the magnitude lemma; zz.rs helpers exact."),
         design_ref="DESIGN.md 3 C11, 8; engines/kani/NOTES_C11.md",
-        note="Partial claim: the algebraic contract of the constant-time splits (rounded-division lemma) and full-width Lagrange reduction are not posed; see evidence.outside_claim.",
+        note="Partial claim: the linear glue of secp256k1 split_theta, gls254 split_mu_odd's algebra and full-width Lagrange reduction are not posed; see evidence.outside_claim.",
     ),
     "C18": dict(
         engine="llsym",
